@@ -175,6 +175,51 @@ def _block_edits(ctx):
     return cnt
 
 
+def _pair_worker(arg):
+    """call-history independence of trees and proofs: for every ordered pair (L1, L2) of lists over `a` ids with length
+    1..L whose L1 is in this worker's share: commit to L1 (tree + root), then build the tree of L2 and take the proof of
+    every position of L2"""
+    from skepticoin.merkletree import get_merkle_root, get_merkle_tree, get_proof
+    a, L, share, nshares = arg
+    ids = [leaf(200 + i) for i in range(a)]
+    lists = [lst for n in range(1, L + 1) for lst in itertools.product(range(a), repeat=n)]
+    want = {}
+    bad = []
+    n = 0
+    for k1, l1 in enumerate(lists):
+        if k1 % nshares != share:
+            continue
+        v1 = [ids[i] for i in l1]
+        for l2 in lists:
+            n += 1
+            v2 = [ids[i] for i in l2]
+            try:
+                get_merkle_root(v1)
+                get_merkle_tree(v1)
+                t2 = get_merkle_tree(v2)
+                r2 = get_merkle_root(v2)
+                if l2 not in want:
+                    want[l2] = r2
+                ok = t2.hash() == r2 == want[l2]
+                where = 'commitment'
+                if ok:
+                    for pos in range(len(v2)):
+                        p = get_proof(t2, pos)
+                        lv = []
+                        proof_leaves(p, lv)
+                        if p.hash() != r2 or (pos, v2[pos]) not in lv:
+                            ok = False
+                            where = 'proof for position %d' % pos
+                            break
+            except Exception as e:
+                ok = False
+                where = 'raises %r' % (e,)
+            if not ok:
+                if len(bad) < 3:
+                    bad.append((list(l1), list(l2), where))
+    return bad, n
+
+
 def run(ctx):
     a, L = (3, 9) if ctx.quick else (4, 9)
     N = 80 if ctx.quick else 140
@@ -211,14 +256,25 @@ def run(ctx):
         for kind, n, x in bad:
             ctx.violation('%s' % kind, "length %d: %s %s" % (n, kind, x), {'kind': 'len', 'n': n})
     nb = _block_edits(ctx)
+    pa, pL = (4, 4) if ctx.quick else (4, 5)
+    nsh = ctx.ncpu * 2
+    npairs = 0
+    for bad, n in ctx.pmap(_pair_worker, [(pa, pL, i, nsh) for i in range(nsh)]):
+        npairs += n
+        for l1, l2, where in bad:
+            ctx.violation('tree-depends-on-call-history', "after committing to list %r, the %s of list %r (over %d ids) is wrong" % (
+                l1, where, l2, pa), {'kind': 'pair', 'a': pa, 'L': pL, 'l1': l1, 'l2': l2})
+    npf += npairs
+    ctx.cov['history_pairs'] = npairs
     ctx.cov.update({
         'evaluations': nlists + ne + npf + nb, 'distinct_nontrivial': nlists + ne,
         'rule': "(i) every list over an alphabet of %d independent ids with length 1..%d%s: commitments pairwise distinct; "
                 "(ii) every length 1..%d: every single edit (substitute, delete, duplicate in place, insert, every swap, "
                 "append fresh / copy of last / copy of first, rotate, reverse) changes the commitment and the proof for "
                 "every position reproduces it and contains the entry; (iii) the same edits on the transaction lists of "
-                "real blocks with the header kept are refused. distinct = lists + edits enumerated"
-                % (a, L, "" if ctx.quick else " and over 2 ids with length 1..16", N),
+                "real blocks with the header kept are refused; (iv) every ordered pair of lists over 4 ids with length <= %d: "
+                "tree and all proofs of the second list right after committing to the first. distinct = lists + edits enumerated"
+                % (a, L, "" if ctx.quick else " and over 2 ids with length 1..16", N, pL),
         'samples': [{'lists_over_alphabet': a, 'first': [0], 'last': [a - 1] * L}, {'length': lens[0], 'edits': [e[0] for e in edits([1, 2, 3], 9)][:8]}],
         'exhaustive': True, 'lists': nlists, 'edits': ne, 'proofs': npf, 'block_edits': nb,
     })
@@ -245,6 +301,27 @@ def replay(data, ctx):
                 out.append(('root-collision', 'tree differs from root'))
         elif rt(data['x']) == rt(data['y']):
             out.append(('root-collision', 'same commitment'))
+    elif data['kind'] == 'pair':
+        # the failing pair alone; the worker's enumeration order around it is reproduced by the whole-run confirmation
+        from skepticoin.merkletree import get_merkle_tree, get_proof
+        ids = [leaf(200 + i) for i in range(data['a'])]
+        v1 = [ids[i] for i in data['l1']]
+        v2 = [ids[i] for i in data['l2']]
+        try:
+            get_merkle_root(v1)
+            get_merkle_tree(v1)
+            t2 = get_merkle_tree(v2)
+            r2 = get_merkle_root(v2)
+            ok = t2.hash() == r2
+            for pos in range(len(v2)):
+                p = get_proof(t2, pos)
+                lv = []
+                proof_leaves(p, lv)
+                ok = ok and p.hash() == r2 and (pos, v2[pos]) in lv
+        except Exception:
+            ok = False
+        if not ok:
+            out.append(('tree-depends-on-call-history', 'reproduced'))
     elif data['kind'] == 'len':
         bad, _, _ = _len_worker(data['n'])
         out = [(k, 'length %d %s' % (n, x)) for k, n, x in bad]
